@@ -76,6 +76,8 @@ ALLOWED = {
     "LoopContext.__next__": {"*": ()}, "LoopContext._peek_next": {"*": ()}, "LoopContext.length": {"len": (TypeError,), "iter": ()},
     "AsyncLoopContext.__anext__": {"next": (StopAsyncIteration,)}, "AsyncLoopContext._peek_next": {"next": (StopAsyncIteration,)},
     "AsyncLoopContext.length": {"len": (TypeError,), "iter": ()},
+    "AsyncLoopContext._known_length": {"len": (TypeError,)},
+    "TemplateExpression.__call__": {"*": ()}, "TemplateExpression.__call__[async]": {"*": ()},
     "Macro.__call__": {"*": ()},
     "do_last": {"*": (StopIteration,)}, "do_first": {"*": (StopAsyncIteration,)},
     "_IteratorToAsyncIterator.__anext__": {"*": (StopIteration,)},
@@ -435,7 +437,7 @@ class LoopAttr(FaultVC):
         self.expect_sites = ("len",) if attr in ("length", "revindex", "revindex0") else ("next",)
 
     def configure_more(self, I):
-        for n in ("length", "index", "revindex", "revindex0", "last", "nextitem", "_peek_next", "_to_iterator"):
+        for n in ("length", "index", "revindex", "revindex0", "last", "nextitem", "_peek_next", "_to_iterator", "_len_of_iterable"):
             I.inline.add(f"jinja2.runtime:LoopContext.{n}")
         I.specs["next_obj"] = data_callee("next")
         I.specs["len_obj"] = data_callee("len", returns="int")
@@ -1245,6 +1247,7 @@ class LoopCtx(FaultVC):
         I.specs["len_obj"] = data_callee("len", returns="int")
         I.inline.add("jinja2.runtime:LoopContext.index")
         I.inline.add("jinja2.runtime:LoopContext._to_iterator")
+        I.inline.add("jinja2.runtime:LoopContext._len_of_iterable")
         I.specs["jinja2.runtime:AsyncLoopContext._to_iterator"] = A.abstract_fn("auto_aiter", returns="obj")
         I.specs["jinja2.async_utils:auto_aiter"] = A.abstract_fn("auto_aiter", returns="obj")
 
@@ -1272,6 +1275,29 @@ class LoopCtx(FaultVC):
         fns = [resolve(self.target)]
         self.loop = engine_obj(st, self.cls, "loop", fields, *fns)
         return [self.loop], {}
+
+
+class ExpressionCall(FaultVC):
+    """TemplateExpression.__call__ (Environment.compile_expression): no handler between the data and the caller."""
+
+    def __init__(self, is_async):
+        self.is_async = is_async
+        FaultVC.__init__(self, "TemplateExpression.__call__" + ("[async]" if is_async else ""), "jinja2.environment:TemplateExpression.__call__")
+
+    def configure_more(self, I):
+        I.inline.add("jinja2.environment:TemplateExpression._consume_async")
+        I.inline.add("jinja2.utils:consume")
+        I.specs["Template.new_context"] = A.abstract_fn("Template.new_context", returns="obj")
+        I.specs["call_obj"] = data_callee("root_render_func", result=lambda s, a: (fresh("piece", "str"),))
+        I.specs["getattr_obj"] = lambda I_, st, args, kwargs, node: [(st, fresh(args[1], "obj"))]  # context.vars
+        I.specs["getitem_obj"] = lambda I_, st, args, kwargs, node: [(st, fresh("result", "obj"))]  # the context's own dict
+        import asyncio
+        I.specs[("fn", id(asyncio.run))] = lambda I_, st, args, kwargs, node: [(st, args[0])]
+
+    def setup(self, I, st):
+        tmpl = A.obj(st, E.Template, "template", fields={"environment": env_obj(st, is_async=self.is_async), "root_render_func": sym("root_render_func", "obj")})
+        self.expr = A.obj(st, E.TemplateExpression, "expression", fields={"_template": tmpl, "_undefined_to_none": sym("undefined_to_none", "bool")})
+        return [self.expr], {"v": sym("v", "obj")}
 
 
 class MacroCallFrame(FaultVC):
@@ -1739,6 +1765,8 @@ HANDLER_CLASSES = {
     "bccache:MemcachedBytecodeCache.load_bytecode": ['Exception'],
     "bccache:MemcachedBytecodeCache.dump_bytecode": ['Exception'],
     "compiler:find_undeclared": ['VisitorExit'],
+    "compiler:UndeclaredNameVisitor.visit_Macro": ['VisitorExit'],
+    "compiler:UndeclaredNameVisitor._visit_scope": ['VisitorExit'],
     "compiler:CodeGenerator.blockvisit": ['CompilerExit'],
     "compiler:CodeGenerator.macro_body": ['IndexError', 'IndexError'],
     "compiler:CodeGenerator.visit_Output": ['Exception,nodes.Impossible'],
@@ -1754,6 +1782,7 @@ HANDLER_CLASSES = {
     "environment:Environment.compile": ['TemplateSyntaxError'],
     "environment:Environment.compile_expression": ['TemplateSyntaxError'],
     "environment:Environment.compile_templates": ['TemplateSyntaxError'],
+    "environment:Environment.compile_templates.write_file": ['NotImplementedError,OSError'],
     "environment:Environment.select_template": ['TemplateNotFound,UndefinedError'],
     "environment:Template.render": ['Exception'],
     "environment:Template.render_async": ['Exception'],
@@ -1770,7 +1799,7 @@ HANDLER_CLASSES = {
     "filters:do_random": ['IndexError'],
     "filters:do_int": ['OverflowError,TypeError,ValueError', 'OverflowError,TypeError,ValueError'],
     "filters:do_float": ['OverflowError,TypeError,ValueError'],
-    "filters:do_reverse": ['TypeError', 'TypeError'],
+    "filters:do_reverse": ['TypeError'],
     "filters:do_attr": ['AttributeError'],
     "filters:prepare_map": ['LookupError'],
     "filters:prepare_select_or_reject": ['LookupError', 'LookupError'],
@@ -1809,9 +1838,10 @@ HANDLER_CLASSES = {
     "runtime:LoopContext.length": ['TypeError'],
     "runtime:AsyncLoopContext.length": ['TypeError'],
     "runtime:AsyncLoopContext._peek_next": ['StopAsyncIteration'],
+    "runtime:AsyncLoopContext._known_length": ['TypeError'],
     "runtime:Macro.__call__": ['KeyError'],
-    "sandbox:SandboxedEnvironment.getitem": ['LookupError,TypeError', 'Exception', 'AttributeError'],
-    "sandbox:SandboxedEnvironment.getattr": ['AttributeError', 'LookupError,TypeError'],
+    "sandbox:SandboxedEnvironment.getitem": ['AttributeError,LookupError,TypeError', 'Exception', 'AttributeError'],
+    "sandbox:SandboxedEnvironment.getattr": ['AttributeError', 'AttributeError,LookupError,TypeError'],
     "tests:test_sequence": ['Exception'],
     "tests:test_iterable": ['TypeError'],
     "utils:import_string": ['AttributeError,ImportError'],
@@ -1837,6 +1867,8 @@ HANDLER_WHY = {
     "nativetypes:NativeTemplate.render": "contract:NativeTemplate.render", "nativetypes:NativeTemplate.render_async": "contract:NativeTemplate.render_async",
     "runtime:Context.call": "contract:Context.call", "runtime:LoopContext.length": "contract:LoopContext.length",
     "runtime:AsyncLoopContext.length": "contract:AsyncLoopContext.length", "runtime:AsyncLoopContext._peek_next": "contract:AsyncLoopContext._peek_next",
+    "runtime:AsyncLoopContext._known_length": "contract:AsyncLoopContext._known_length",
+    "environment:Environment.compile_templates.write_file": "removal of a stale byte-code file next to a precompiled template (os.remove / importlib cache path): file system only, no template is rendered",
     "runtime:Macro.__call__": "contract:Macro.__call__",
     "sandbox:SandboxedEnvironment.getitem": "contract:SandboxedEnvironment.getitem", "sandbox:SandboxedEnvironment.getattr": "contract:SandboxedEnvironment.getattr",
     "tests:test_sequence": "contract:test_sequence", "tests:test_iterable": "contract:test_iterable",
@@ -1874,14 +1906,11 @@ HANDLER_WHY = {
 }
 
 
-# class lists accepted as well: the same handlers after the proposed repairs (proposed_fixes/c02_sandbox_lookup_signals.diff,
-# c38_reverse_typeerror.diff, c38_getitem_str_swallow.diff)
+# class lists accepted as well: the same handlers after the candidate patch proposed_fixes/c38_getitem_str_swallow.diff (declined
+# upstream for now: the `except Exception` around str(argument) is kept deliberately)
 HANDLER_ALTERNATIVES = {
-    "sandbox:SandboxedEnvironment.getitem": [["AttributeError,LookupError,TypeError", "Exception", "AttributeError"],
-                                             ["AttributeError,LookupError,TypeError", "AttributeError"], ["LookupError,TypeError", "AttributeError"]],
-    "sandbox:SandboxedEnvironment.getattr": [["AttributeError", "AttributeError,LookupError,TypeError"]],
+    "sandbox:SandboxedEnvironment.getitem": [["AttributeError,LookupError,TypeError", "AttributeError"]],
     "environment:Environment.getitem": [["AttributeError,LookupError,TypeError", "AttributeError"]],
-    "filters:do_reverse": [["TypeError"]],
 }
 
 
@@ -1940,7 +1969,7 @@ def why_for(key):
 def handler_table(task, tier, seed):
     res = []
     found = scan_handlers()
-    contracts = {t.fn for t in TASKS if isinstance(t, FaultVC)} | {v.fn for t in TASKS if isinstance(t, LoopAttrGroup) for v in t.vcs}
+    contracts = {t.fn for t in MEMBERS if isinstance(t, FaultVC)} | {v.fn for t in MEMBERS if isinstance(t, LoopAttrGroup) for v in t.vcs}
     for key in sorted(set(found) | set(HANDLER_CLASSES)):
         got = [c for c, _ln in found.get(key, [])]
         want = HANDLER_CLASSES.get(key)
@@ -2184,7 +2213,7 @@ class NativeMatrix(Task):
         return f"{w.get('function')}:" + ",".join(w.get("failing", []))
 
 
-TASKS = [
+MEMBERS = [
     EntryPoint("render", False), EntryPoint("render", True, "Template.render[async]"), EntryPoint("render_async", True),
     EntryPoint("generate", False), EntryPoint("generate", True, "Template.generate[async]"), EntryPoint("generate_async", True),
     DefaultModule(False), DefaultModule(True), MakeModule(False), MakeModule(True), LoadTemplate("_load_template"), LoadTemplate("get_template"),
@@ -2192,6 +2221,7 @@ TASKS = [
     BufferedGenerator(), StreamNext(), StreamDump(False), StreamDump(True), BlockCall(False), BlockCall(True),
     LoopCtx(R.LoopContext, "__next__"), LoopCtx(R.LoopContext, "_peek_next"), LoopCtx(R.LoopContext, "length"),
     LoopCtx(R.AsyncLoopContext, "__anext__", ("next",)), LoopCtx(R.AsyncLoopContext, "_peek_next"), LoopCtx(R.AsyncLoopContext, "length", ("len",)),
+    LoopCtx(R.AsyncLoopContext, "_known_length", ("len",)), ExpressionCall(False), ExpressionCall(True),
     MacroCallFrame(), DoLast(), DoFirstAsync(), IterToAsync(),
     NativeEntry("render", False, "NativeTemplate.render"), NativeEntry("render", True, "NativeTemplate.render[async]"),
     NativeEntry("render_async", True, "NativeTemplate.render_async"),
@@ -2203,6 +2233,48 @@ TASKS = [
     *[LookupSignals(c, m) for c in (E.Environment, SB.SandboxedEnvironment) for m in ("getattr", "getitem")],
     HandlerTable(), NativeMatrix(), NativeHistory(),
 ]
+
+
+class Bundle(Task):
+    """Several contracts run in one worker process (the obligations and their names are those of the members; bundling only
+    saves interpreter start-up per contract)."""
+    kind = "vc"
+    prop = "C38"
+
+    def __init__(self, name, members):
+        self.name = name
+        self.members = members
+
+    def run(self, tier, seed):
+        out = []
+        self.owner = {}
+        for m in self.members:
+            try:
+                rs = m.run(tier, seed)
+            except Exception as ex:  # a crash of one member must not hide the others
+                import traceback
+                rs = [Res(f"C38.{getattr(m, 'fn', m.name)}.crash", "error", "pyvc", 0.0, traceback.format_exc()[-800:], "vc")]
+            for r in rs:
+                self.owner[id(r)] = m
+            out += rs
+        return out
+
+    def replay(self, w):
+        return native_replay(w)
+
+    def finding_key(self, res):
+        m = getattr(self, "owner", {}).get(id(res))
+        return m.finding_key(res) if m is not None else None
+
+
+def _bundles(members, size):
+    small = [m for m in members if isinstance(m, (FaultVC, LoopAttrGroup))]
+    own = [m for m in members if m not in small]
+    return [Bundle(f"C38.contracts#{i // size}", small[i:i + size]) for i in range(0, len(small), size)] + own
+
+
+# FaultVC subclasses used by the handler table's "contract:" justifications are looked up in MEMBERS
+TASKS = _bundles(MEMBERS, 9)
 
 META = {
     "level": "proof",
